@@ -20,14 +20,14 @@ OWNER = {"C01": "C01", "C02": "C02", "C03": "C03", "C04": "C04", "C14": "C14", "
 
 PROPS = {
     "C01": dict(modes={"quick": [("path", "quick")], "thorough": [("path", "thorough"), ("headers", "quick")]},
-                plan=dict(perms=0, slash=False, entries=["D", "S"]),
+                plan=dict(perms=0, slash=False, entries=["D", "S"], conc=8),
                 random={"quick": [("mixed", 350, 24), ("headers", 150, 30)],
                         "thorough": [("mixed", 4000, 30), ("headers", 1500, 40)]},
                 counter="judged",
                 rule="cases = (route table, request) pairs: every table of MC_Routing's pools with requests derived "
                      "from its templates (match and near-miss values per token), plus seeded random tables with "
                      "requests mutated from matching ones; each is sent through Dispatch and ServeHTTP of real "
-                     "containers under both routers. Non-trivial = distinct (table, request, outcome) in which a "
+                     "containers under both routers, and all requests of a table once more from 8 goroutines at once. Non-trivial = distinct (table, request, outcome) in which a "
                      "route function ran (the property's antecedent)."),
     "C02": dict(modes={"quick": [("headers", "quick"), ("roots", "quick")],
                        "thorough": [("headers", "thorough"), ("roots", "thorough"), ("path", "quick")]},
@@ -40,7 +40,8 @@ PROPS = {
                      "the two-service root pools; every case is also run with trace logging on. Non-trivial = "
                      "distinct (table, request, outcome) whose outcome is not a plain 404 (a route ran, or "
                      "405/415/406 was chosen)."),
-    "C03": dict(modes={"quick": [("path", "quick")], "thorough": [("path", "thorough"), ("roots", "thorough")]},
+    "C03": dict(modes={"quick": [("path", "quick"), ("roots", "quick"), ("order3", "quick")],
+                       "thorough": [("path", "thorough"), ("roots", "thorough"), ("order3", "quick")]},
                 plan=dict(perms=3, slash=False, entries=["D"]),
                 random={"quick": [("mixed", 300, 20)], "thorough": [("mixed", 4000, 30)]},
                 counter="dominance",
@@ -54,7 +55,7 @@ PROPS = {
                 counter="params",
                 rule="cases as for C01; Request.PathParameters() is read inside the invoked handler. Non-trivial = "
                      "judged route outcomes that bind at least one parameter, counted by the trace spec."),
-    "C14": dict(modes={"quick": [("path", "quick")], "thorough": [("path", "thorough"), ("headers", "quick")]},
+    "C14": dict(modes={"quick": [("path", "quick"), ("roots", "quick")], "thorough": [("path", "thorough"), ("roots", "thorough"), ("headers", "quick")]},
                 plan=dict(perms=0, slash=True, entries=["D"]),
                 random={"quick": [("slash", 350, 24)], "thorough": [("slash", 4000, 30), ("headers", 1000, 30)]},
                 counter="slashTwins",
@@ -126,7 +127,10 @@ def sig_c18_crossing(ev, mis, table):
     svc = table["services"][w - 1]
     t1 = full_tokens(svc["root"], svc["routes"][r1 - 1]["p"])
     t2 = full_tokens(svc["root"], svc["routes"][r2 - 1]["p"])
-    return crossing(t1, t2)
+    # ... with different numbers of literal characters (with equal numbers both routers fall back to the
+    # same tie-break, the greater Path, and agree)
+    lit = lambda ts: sum(len(x) for x in ts if not is_var(x))
+    return crossing(t1, t2) and lit(t1) != lit(t2)
 
 
 def sig_c17_nested(ev, mis, table):
